@@ -486,6 +486,7 @@ def _argv_options(case):
 
 
 def run_impl(cases):
+    import copy
     import json
     import pathlib
     import shutil
@@ -501,7 +502,7 @@ def run_impl(cases):
             if case["kind"] == "union":
                 from simple_parsing.utils import dict_union
 
-                r = outcome_of(lambda: _tree_of(dict_union(case["a"], case["b"])))
+                r = outcome_of(lambda: _tree_of(dict_union(copy.deepcopy(case["a"]), copy.deepcopy(case["b"]))))
                 out.append(dict(obs=r[:2]))
                 continue
             reset_simple_parsing_state()
@@ -547,7 +548,7 @@ def run_impl(cases):
             elif case["via"] == "sd_instance":
                 seen["sdefs"] = [{d: _tree_of(i)} for d, i in insts.items()]
             elif case["via"] == "sd_dict":
-                seen["sdefs"] = [{d: v} for d, v in case["dflt"].items()]
+                seen["sdefs"] = [{d: copy.deepcopy(v)} for d, v in case["dflt"].items()]
             kw = {}
             if case["nm"] is not None:
                 kw["nested_mode"] = NestedMode[case["nm"]]
@@ -572,7 +573,7 @@ def run_impl(cases):
                         parser.set_defaults(**{d: i})
                 elif case["via"] == "sd_dict":
                     for d, v in case["dflt"].items():
-                        parser.set_defaults(**{d: v})
+                        parser.set_defaults(**{d: copy.deepcopy(v)})  # the implementation may write into what it is given
                 nsp = parser.parse_args(argv)
                 return {r["dest"]: _tree_of(getattr(nsp, r["dest"])) for r in roots}
 
